@@ -3,19 +3,21 @@
 
   reset                                          → ok
   frame <conn> <now-ms> <watchOk 0|1> <arg-hex>… → <code reply> # <spec reply> # same|differ
-        one frame of connection <conn> through `processFrame`; the state follows `Quirks.code`; the
+        one frame of connection <conn> through `processFrame`; the state follows `Quirks.ofSource` (the switches the translator
+        reads off the current source: today = `Quirks.code`, the tree as found); the
         prescribed reply (`Quirks.spec`) is computed from the same pre-state; `same` iff both variants
         leave the same dataset, hand-over log and state of that connection
   disc <conn>                                    → ok          (the connection goes away)
   conn <conn>                                    → <db> <inTx 0|1> <queue length> <aborted 0|1>
   dump <db> <now-ms>                             → canonical dump of one database (as drv_ks)
   ext                                            → hand-over log `<conn>:<NAME>|…` or `.`
+  switches                                       → immediate names (`|`-joined or `.`) selectInExecIgnored blockingInExecNoResponse
 
   Replies: as drv_ks (every error is `( e )`); EXEC's array is `( a slot … )`, a slot holding the
   internal NoResponse marker is `( noresponse )`, a reply produced by pub/sub / AUTH / … is `( ext )`.
 -/
 import FerrousSpec.Drv.Keyspace
-import FerrousSpec.Model.Tx
+import FerrousSpec.Proofs.TxSource
 namespace Ferrous.Drv.Tx
 open Ferrous Ferrous.Drv Ferrous.Tx
 
@@ -44,14 +46,14 @@ def step (st : St) (ws : List String) : St × String :=
     | some cid, some now, some args =>
       if w != "0" && w != "1" then (st, "bad-op") else
       let r : Req := { cmd := args, now := now, watchOk := w == "1" }
-      let (s1, r1) := processFrame Quirks.code st.s cid r
+      let (s1, r1) := processFrame Quirks.ofSource st.s cid r
       let (s2, r2) := processFrame Quirks.spec st.s cid r
       let same := s1.store == s2.store && s1.ext == s2.ext && s1.conns cid == s2.conns cid
       ({ s := s1 }, showReply r1 ++ " # " ++ showReply r2 ++ " # " ++ (if same then "same" else "differ"))
     | _, _, _ => (st, "bad-op")
   | ["disc", conn] =>
     match conn.toNat? with
-    | some cid => ({ s := (stepEvent Quirks.code st.s (.disconnect cid)).1 }, "ok")
+    | some cid => ({ s := (stepEvent Quirks.ofSource st.s (.disconnect cid)).1 }, "ok")
     | none => (st, "bad-op")
   | ["conn", conn] =>
     match conn.toNat? with
@@ -64,6 +66,9 @@ def step (st : St) (ws : List String) : St × String :=
     | some db, some now => (st, Keyspace.showDb now (KS.getDb st.s.store db))
     | _, _ => (st, "bad-op")
   | ["ext"] => (st, showExt st.s.ext)
+  | ["switches"] =>
+    let q := Quirks.ofSource
+    (st, (if q.immediate.isEmpty then "." else String.intercalate "|" q.immediate) ++ " " ++ b01 q.selectInExecIgnored ++ " " ++ b01 q.blockingInExecNoResponse)
   | _ => (st, "bad-op")
 
 def main : IO Unit := loop step {}
